@@ -276,11 +276,40 @@ class CallMixin:
             return VBool(truthy(args[0]) == truthy(args[1]))
         if name == "old_of":
             return args[0]
+        if name == "dict_put":
+            return VDict(z3.Store(Dict.pack(args[0]), coerce(args[1], Str).t, to_val(args[2])))
+        if name == "same_members":
+            from .ty import VSet
+
+            def seq_view(v):
+                if isinstance(v, VSet):
+                    return v.lst
+                if isinstance(v, VConst) and isinstance(v.py, (set, frozenset, list, tuple)) and all(type(x) is int for x in v.py):
+                    return VList(Int, items=[lift(x) for x in sorted(set(v.py))])
+                if isinstance(v, VAny):
+                    return coerce(v, SeqOf(Int))
+                if isinstance(v, VTuple) and all(isinstance(x, VInt) for x in v.items):
+                    return VList(Int, items=list(v.items))
+                if isinstance(v, VList) and (v.elem is Int or (v.items is not None and all(isinstance(x, VInt) for x in v.items))):
+                    return v
+                raise Unsupported(f"same_members of {v}")
+            a, b = seq_view(args[0]), seq_view(args[1])
+            ca, cb = concrete_of(a), concrete_of(b)
+            if ca is not NOCONST and cb is not NOCONST:
+                return VBool(set(ca) == set(cb))
+            return VBool(SeqOf(Int).pack(a) == SeqOf(Int).pack(b))
         if name in ("as_str_list", "as_list"):
             v = args[0]
             if isinstance(v, VAny):
                 return coerce(v, SeqOf(Str if name == "as_str_list" else Any))
             return v
+        if name == "is_int_list":
+            v = args[0]
+            if isinstance(v, VAny):
+                return VBool(ValSort.is_LI(v.t))
+            if isinstance(v, VList):
+                return VBool(v.elem is Int or (v.items is not None and all(isinstance(x, (VInt, VBool)) for x in v.items)))
+            return VBool(False)
         if name in ("is_str_list", "is_any_list"):
             v = args[0]
             if isinstance(v, VAny):
@@ -290,6 +319,8 @@ class CallMixin:
             return VBool(False)
         if name == "ih":
             return self.induction_hypothesis(args[0], args[1:], fr, lineno)
+        if name == "use":
+            return self.use_lemma(args[0], args[1:], fr, lineno)
         if name == "reveal":
             fv = args[0]
             app = self.call_opaque(fv.info, list(args[1:]), {})
@@ -336,6 +367,29 @@ class CallMixin:
         else:
             dec = z3.And(coerce(small, Int).t < coerce(big, Int).t, coerce(small, Int).t >= 0)
         self.oblige("lemma", dec, lineno, label="ih.decreases")
+        self.lemma_using = getattr(self, "lemma_using", 0) + 1
+        try:
+            claim = self.inline_call(fv.info, None, None, list(args), {}, None, lineno)
+        finally:
+            self.lemma_using -= 1
+        self.assume(truthy(claim))
+        return VBool(True)
+
+    def use_lemma(self, fv, args, fr, lineno):
+        """use(lemma_fn, *args): assume the claim of a separately proved @lemma at these arguments. To rule out
+        circular reasoning, a lemma may only use lemmas of the same file that are defined strictly before it."""
+        if not isinstance(fv, VFunc):
+            raise Unsupported("use(): first argument must be a lemma function")
+        modname = fv.info.module.py.__name__
+        lem = [l for l in api.LEMMAS if l.fn.__name__ == fv.info.name and l.module == modname]
+        if not lem:
+            raise Unsupported(f"use(): {fv.info.name} is not a registered @lemma")
+        if getattr(self, "lemma_using", 0) > 0:
+            return VBool(True)  # only the claim of the enclosing lemma is being evaluated
+        cur = getattr(self, "cur_lemma", None)
+        if cur is not None:
+            if cur.module != modname or lem[-1].node.lineno >= cur.node.lineno:
+                raise Unsupported(f"use({fv.info.name}) inside a lemma: only lemmas defined earlier in the same file")
         self.lemma_using = getattr(self, "lemma_using", 0) + 1
         try:
             claim = self.inline_call(fv.info, None, None, list(args), {}, None, lineno)
@@ -565,6 +619,10 @@ class CallMixin:
         sf = Frame(mod, FuncInfo(f"{c.module}::{c.cls.__name__}.{name}", mod, fn), is_spec=True)
         for a in fn.args.args:
             if a.arg not in values:
+                if a.arg in ("stdout", "stderr"):
+                    from . import effects  # ghost output streams (pyvc/effects.py)
+                    sf.env[a.arg] = effects.current(self, a.arg)
+                    continue
                 raise Unsupported(f"{c.target}: spec {name} wants parameter {a.arg!r} which is not available")
             sf.env[a.arg] = values[a.arg]
         self.spec_depth += 1
@@ -581,6 +639,8 @@ class CallMixin:
         params = {k: self.adapt_arg(v, c.types.get(k)) for k, v in params.items()}
         memo = {}
         old = VRec(Rec("old"), {k: v.clone(memo) for k, v in params.items()})
+        from . import effects
+        effects.add_old(self, old.fields)  # old.stdout / old.stderr
         vals = dict(params)
         vals["old"] = old
         short = c.target.split("::")[1]
@@ -594,14 +654,14 @@ class CallMixin:
             if "raises_when" in c.methods:
                 rw = truthy(self.spec_eval(c, "raises_when", vals))
                 if self.decide(rw):
-                    raise RaiseSig(VExc(c.raises[0]))
+                    self.raise_by_contract(c, c.raises[0], params, old, lineno)
             else:
                 for cls in c.raises:
                     b = z3.Const(fresh_name(f"raises.{cls}"), z3.BoolSort())
                     if self.decide(b):
-                        raise RaiseSig(VExc(cls))
+                        self.raise_by_contract(c, cls, params, old, lineno)
         for path in c.modifies:
-            self.havoc_path(params, path, c)
+            self.havoc_path(params, path, c, lineno)
         if "value" in c.methods:
             # functional contract: the result IS the spec value (usable under binders, no fresh symbol)
             result = self.spec_eval(c, "value", vals)
@@ -616,6 +676,24 @@ class CallMixin:
         for name in c.ensures_names():
             self.assume(truthy(self.spec_eval(c, name, vals)))
         return result
+
+    def raise_by_contract(self, c, cls, params, old, lineno):
+        """Exceptional exit of a callee as its contract describes it: everything in `modifies` is forgotten (the
+        exception may come after partial work), the `on_raise*` clauses (proved on every exceptional exit of the
+        callee) are assumed, and the exception carries a value of type `exc=<Ty>` (e.g. the exit code)."""
+        for path in c.modifies:
+            self.havoc_path(params, path, c, lineno)
+        payload = None
+        ety = c.opts.get("exc")
+        if ety is not None:
+            payload = ety.fresh("exc")
+        vals = dict(params)
+        vals["old"] = old
+        if payload is not None:
+            vals["exc"] = payload
+        for name in sorted(n for n in c.methods if n.startswith("on_raise")):
+            self.assume(truthy(self.spec_eval(c, name, vals)))
+        raise RaiseSig(VExc(cls, payload))
 
     def on_fresh(self, v):
         """Trusted facts about a freshly introduced symbolic value (type invariants of the abstract domain)."""
@@ -654,7 +732,11 @@ class CallMixin:
             return coerce(v, ty)
         return v
 
-    def havoc_path(self, params, path, c):
+    def havoc_path(self, params, path, c, lineno=0):
+        if path in ("stdout", "stderr") and path not in params:
+            from . import effects
+            effects.havoc(self, path, lineno, who=f"callee {c.target.split('::')[1]}")
+            return
         parts = path.split(".")
         if parts[0] not in params:
             raise Unsupported(f"{c.target}: modifies path {path!r} does not start at a parameter")
@@ -698,6 +780,10 @@ class CallMixin:
                 return VExc(ci.name, args[0] if args else None)
         c = api.REGISTRY.get(ci.key + ".__init__") or api.REGISTRY.get(ci.key)
         ty = Rec(ci.name, cls=ci.key)
+        if c is not None and isinstance(c.types.get("self"), Rec) and not ci.is_dataclass:
+            # a contract on __init__ declares the object's fields: the new object gets that record type, so the
+            # fields listed in the contract's `modifies` can be created (havoc + ensures) at the construction site
+            ty = c.types["self"].with_cls(ci.key)
         if ci.is_dataclass:
             fields = {}
             names = [f[0] for f in ci.fields]
@@ -921,6 +1007,11 @@ class CallMixin:
             if not ts:
                 return VBool(not is_any)
             return VBool(z3.Or(ts) if is_any else z3.And(ts))
+        ci = getattr(it, "cond_items", None)
+        if isinstance(it, VList) and ci is not None and it.seq is ci[0]:
+            # comprehension over a known-length iterable with symbolic filters: any/all over the guarded items
+            ts = [truthy(v) if c is None else (z3.And(c, truthy(v)) if is_any else z3.Implies(c, truthy(v))) for c, v in ci[1]]
+            return VBool(z3.Or(ts) if is_any else z3.And(ts))
         if isinstance(it, VList) and it.elem is Bool:
             x = z3.Const("cx!Bool", z3.BoolSort())
             return VBool(self.seq_pred_recfun("any" if is_any else "all", it, x, x))
@@ -961,6 +1052,17 @@ class CallMixin:
         c = concrete_of(args[0])
         if c is not NOCONST:
             return VConst(frozenset(c))
+        v = args[0]
+        if isinstance(v, VAny) and hasattr(self, "known") and self.known(ValSort.is_LS(v.t)) is True:
+            from .ty import VSet
+            return VSet(VList(Str, seq=ValSort.lsv(v.t)))  # set(<list of str>): membership only, like the int case
+        if isinstance(v, VAny):
+            # set(<dynamic value>): modelled for a list of ints only (any other shape: unsafe/undecided)
+            self.safety(ValSort.is_LI(v.t), "type(list[int]) of dynamic value", lineno)
+            v = coerce(v, SeqOf(Int))
+        if isinstance(v, VList) and v.elem is Int:
+            from .ty import VSet
+            return VSet(VList(Int, seq=v.term()))
         raise Unsupported("set() of symbolic value")
 
     bi_frozenset = bi_set
@@ -969,6 +1071,11 @@ class CallMixin:
         c = [concrete_of(a) for a in args]
         if all(x is not NOCONST for x in c):
             return VConst(range(*c))
+        if len(args) in (1, 2) and not kwargs and all(isinstance(a, (VInt, VBool)) for a in args):
+            # symbolic bounds, step 1: only usable as the iterable of a for loop with an invariant (Exec._for_range)
+            from .ty import VRange
+            lo = coerce(args[0], Int).t if len(args) == 2 else z3.IntVal(0)
+            return VRange(lo, coerce(args[-1], Int).t)
         raise Unsupported("range() with symbolic bounds")
 
     def bi_enumerate(self, args, kwargs, lineno):
@@ -1030,6 +1137,11 @@ class CallMixin:
                 return VBool(True)
             if getattr(obj.ty, "closed", False):
                 return VBool(False)
+        if isinstance(obj, VNode) and name is not NOCONST:
+            h = getattr(obj.ty, "hasattr_term", None)
+            t = h(self, obj, name) if h is not None else None
+            if t is not None:
+                return VBool(t)
         raise Unsupported(f"hasattr({obj}, {name})")
 
     def bi_id(self, args, kwargs, lineno):
@@ -1084,7 +1196,8 @@ class CallMixin:
         if isinstance(recv, VConst) and isinstance(recv.py, (set, frozenset)):
             if name in ("union", "__or__") and all(isinstance(a, VConst) for a in args):
                 return VConst(frozenset(recv.py).union(*[a.py for a in args]))
-        if isinstance(recv, (VOpaque, VNode)):
+        if isinstance(recv, (VOpaque, VNode)) or (isinstance(recv, VRec) and not recv.ty.as_dict):
+            # (records: methods inherited from a base class outside the repository, e.g. ast.NodeVisitor)
             tyname = recv.ty.name
             h = EXTERNALS.get(f"{tyname}.{name}")
             if h is not None:
@@ -1250,6 +1363,10 @@ class CallMixin:
                     except Unsupported:
                         pass
             else:
+                if isinstance(x, VOpt) and not isinstance(lst.elem, (Opt, NodeTy)) and lst.elem is not Any:
+                    # an Optional appended to a list of non-optional elements: must be non-None here
+                    self.safety(z3.Not(x.isnone), "none appended to a list of non-optional elements", lineno)
+                    x = x.val
                 lst.seq = z3.Concat(lst.seq, z3.Unit(lst.elem.pack(x)))
             return VNone()
         if name == "extend":
